@@ -154,6 +154,8 @@ func c03r2(c *Ctx, id string) {
 		}, "deliver once (and count once, by kind) ⇔ canForward ∧ ¬isBeforeSkipWindow ∧ IsInSnapshotMarker; no other predicate")
 	}
 	c03DeliverOAE(c, id, oi)
+	// the gate predicate itself: canForward = isControl ∨ ¬needCatchup, filter state touched by data events only
+	gateOAE(c, id, oi)
 	// listener arms
 	lts := listenerTargets(c, id, oi)
 	fws := forwarders(w)
